@@ -34,6 +34,11 @@ def bases(rnd, n):
     ]
     for name, steps, extra in fixed:
         out.append((name, steps, extra))
+    # the same over a TLS-like socket (it has unwrap(), which fails while the peer's data is unread)
+    for name, steps, extra in fixed[:4] + fixed[6:8]:
+        e2 = dict(extra)
+        e2["_tls"] = True
+        out.append((name + "+tls", steps + [("data", 10, E(1, b"unread"))], e2))
     for i in range(n):
         msgs = [scen.gen_message(rnd, big_ok=False) for _ in range(rnd.choice([1, 2, 4]))]
         frames, _ = scen.wire_plan(rnd, msgs)
@@ -69,7 +74,7 @@ def run(rep, info, model, tier, seed):
         # how many events does the un-abandoned run yield?
         base_app = extra.get("_app", {})
         probe = dict(cfg=cfg, steps=steps, keys=[b"\x01\x02\x03\x04"] * 12, key16=scen.KEY16, wfaults=list(extra.get("_wf", [])),
-                     app={k: list(v) for k, v in base_app.items()})
+                     app={k: list(v) for k, v in base_app.items()}, tls_like=bool(extra.get("_tls")))
         r = simnet.run_impl(probe)
         nev = len([it for it in r.trace if it[0] == 0])
         for at in range(nev):
@@ -77,7 +82,7 @@ def run(rep, info, model, tier, seed):
                 app = {k: list(v) for k, v in base_app.items()}
                 app.setdefault(at, []).append(("abandon", mech))
                 sc = dict(cfg=cfg, steps=steps, keys=[b"\x01\x02\x03\x04"] * 12, key16=scen.KEY16, app=app,
-                          wfaults=list(extra.get("_wf", [])))
+                          wfaults=list(extra.get("_wf", [])), tls_like=bool(extra.get("_tls")))
                 sc["_mech"] = mech
                 sc["_at"] = at
                 sc["_base"] = name
